@@ -44,6 +44,34 @@ T = {
    demo="demo_c10.rs: iteration k re-run with check_random_with_seed(f, seed_k, 1)",
    catches={"C10":"reported-seed-does-not-reproduce:draws","C01":"replay-differs:draw-value"}),
 }
+
+T.update({
+ "C11": dict(property="C11", run_checks=["C11"],
+   change="PctScheduler::new_execution assigns the shuffled priorities through HashMap::values_mut() (iteration order of a randomly keyed std HashMap) instead of by task id",
+   needs="two runs of PctScheduler::new_from_seed with the same seed compared with each other; divergence starts at iteration 2",
+   demo="demo_c11.rs: 6 threads x 3 steps, 60 iterations, depth 1/2/3, two runs per seed must schedule identically",
+   catches={"C11":"same-seed-differs"}),
+ "C12": dict(property="C12", run_checks=["C12"],
+   change="persist_failure treats its 'already persisted at this schedule length' marker as 'something was persisted in this execution': the second call (from Execution::run) is suppressed although the schedule grew after the panic hook fired",
+   needs="a failing body whose panic hook fires at a different schedule length than the final failure (a task panicking while holding a Shuttle lock guard: the release during unwinding is a scheduling point; or a caught panic followed by a real failure), persistence Print/File, and the emitted schedule actually replayed",
+   demo="demo_c12.rs: FailurePersistence::File, replay of the last emitted schedule file ends in 'schedule ended early'",
+   catches={"C12":"emitted-schedule-does-not-reproduce"}),
+ "C13": dict(property="C13", run_checks=["C13"],
+   change="current::reset_step_count records context_switches() (decisions only) instead of the schedule length (decisions + draws)",
+   needs="a tight step bound, a reset_step_count call, random draws made before that reset, and draws-before plus steps-after reaching the bound while neither phase alone does",
+   demo="demo_c13.rs: FailAfter/ContinueAfter variants under random, PCT, round-robin, DFS",
+   catches={"C13":"reset-step-count-ignored (after strengthening: the reset bodies had no random draws; now 8 shapes with draws before/after the reset, FailAfter and ContinueAfter)"}),
+ "C14": dict(property="C14", run_checks=["C14"],
+   change="ExecutionState::cleanup clears LABELS / TASK_ID_TO_TAGS before tearing down the tasks and lazy statics instead of after",
+   needs="a destructor that writes a label and runs during teardown (a guard on the stack of a task of an abandoned execution, or a lazy static's Drop), targeting a task id the next execution reads before setting",
+   demo="demo_c14.rs: abandonment by step bound, by the scheduler, lazy static whose Drop sets a label",
+   catches={"C14":"dirty-initial-world:label written by a destructor of the previous execution, cleanup-residue (after strengthening: instrumented values now write labels from their destructors and every execution checks at entry that none is visible)"}),
+ "C15": dict(property="C15", run_checks=["C15"],
+   change="mpsc recv_internal pushes the receiver's clock onto the receiver_clock queue before merging the timestamp of the message it just took",
+   needs="bounded non-rendezvous channel, two distinct sender tasks, a send that consumes a slot freed by receiving another sender's message, and a comparison of the sender's clock with the receiver's",
+   demo="demo_c15.rs: two senders on sync_channel(1|2), check_dfs",
+   catches={"C15":"after-op-clock-not-dominated:recv-frees-send"}),
+})
 for k, v in T.items():
     d = f"/verif/seeded/{k}"
     if not os.path.isdir(d):
